@@ -120,3 +120,18 @@ def rdivConst (c : NdArray K) (x : NdArray K) : Option (NdArray K) := do
 
 end
 end AV
+
+namespace AV
+open NdArray
+section
+variable {K : Type} [Add K] [Mul K] [Sub K] [Neg K] [Div K] [Zero K] [One K] [NatCast K]
+attribute [local instance] inh0
+
+/-- comparison operators (utpm.py:1369-1397): `numpy.all` of the comparison of the zeroth
+coefficients over all directions and elements (same-shape operands) -/
+def cmpAll (r : K → K → Bool) (x y : NdArray K) : Bool :=
+  let s := utP x :: utShape x
+  (List.range (numel s)).all fun k => r (x.get (0 :: unravel s k)) (y.get (0 :: unravel s k))
+
+end
+end AV
